@@ -219,6 +219,147 @@ def write_site_census(repo):
     return sites
 
 
+# whole comment-free, whitespace-free bodies of the functions whose control flow the writer automaton mirrors, compared with
+# the bodies the model was written against (SHA-256).  (file, fn name, which occurrence in the file)
+BODY_ANCHORS = [
+    ('connection.rs', 'send_control_stream_headers', 0), ('connection.rs', 'new', 0), ('connection.rs', 'shutdown', 0),
+    ('connection.rs', 'poll_grease_stream', 0), ('connection.rs', 'send_data', 0), ('connection.rs', 'send_trailers', 0),
+    ('connection.rs', 'finish', 0), ('connection.rs', 'process_goaway', 0),
+    ('config.rs', 'try_from', 0),
+    ('stream.rs', 'write', 0), ('stream.rs', 'encode_stream_type', 0), ('stream.rs', 'encode_value', 0),
+    ('stream.rs', 'encode_frame_header', 0), ('stream.rs', 'from', 0), ('stream.rs', 'from', 1), ('stream.rs', 'from', 2),
+    ('stream.rs', 'from', 3), ('stream.rs', 'from', 4),
+    ('server/stream.rs', 'send_response', 0), ('server/stream.rs', 'send_data', 0), ('server/stream.rs', 'send_trailers', 0),
+    ('server/stream.rs', 'finish', 0),
+    ('server/connection.rs', 'new', 0), ('server/connection.rs', 'accept', 0), ('server/connection.rs', 'shutdown', 0),
+    ('server/connection.rs', 'create_resolver_internal', 0), ('server/builder.rs', 'build', 0),
+    ('server/request.rs', 'resolve_request', 0), ('server/request.rs', 'resolve', 0),
+    ('client/connection.rs', 'send_request', 0), ('client/connection.rs', 'shutdown', 0),
+    ('client/stream.rs', 'send_data', 0), ('client/stream.rs', 'send_trailers', 0), ('client/stream.rs', 'finish', 0),
+    ('client/builder.rs', 'new', 0), ('client/builder.rs', 'build', 0),
+]
+BODY_SHA = {'client/builder.rs:build:0': '12b328cfce49eeb9',
+ 'client/builder.rs:new:0': '4662884e899dc8b0',
+ 'client/connection.rs:send_request:0': '53e30074ee34656c',
+ 'client/connection.rs:shutdown:0': '413bf545212817aa',
+ 'client/stream.rs:finish:0': '4d4744985a4c51a3',
+ 'client/stream.rs:send_data:0': '4e78c127c1ca6026',
+ 'client/stream.rs:send_trailers:0': 'f8b0a0db2b4f1ab8',
+ 'config.rs:try_from:0': '657092604aff33a6',
+ 'connection.rs:finish:0': '35eeeee29e510bcd',
+ 'connection.rs:new:0': '2406d23acfe23a38',
+ 'connection.rs:poll_grease_stream:0': '64a2d06aad81290a',
+ 'connection.rs:process_goaway:0': 'fc666058544e3826',
+ 'connection.rs:send_control_stream_headers:0': '447cb1a56fe0afa2',
+ 'connection.rs:send_data:0': '05f246300f89c535',
+ 'connection.rs:send_trailers:0': '85d18851d06044f5',
+ 'connection.rs:shutdown:0': 'ba5623a67db6f42b',
+ 'server/builder.rs:build:0': 'fab325ba172a799d',
+ 'server/connection.rs:accept:0': 'fa5cbcc0d642d349',
+ 'server/connection.rs:create_resolver_internal:0': '6b3f0fc198eac4dc',
+ 'server/connection.rs:new:0': '886bca48649e472b',
+ 'server/connection.rs:shutdown:0': 'b8f49a697076345e',
+ 'server/request.rs:resolve:0': '34ac43b8f72f01b0',
+ 'server/request.rs:resolve_request:0': '9293cf4065efa910',
+ 'server/stream.rs:finish:0': '4d4744985a4c51a3',
+ 'server/stream.rs:send_data:0': '4e78c127c1ca6026',
+ 'server/stream.rs:send_response:0': '2af382508dc02b1a',
+ 'server/stream.rs:send_trailers:0': 'f8b0a0db2b4f1ab8',
+ 'stream.rs:encode_frame_header:0': 'ed5fa65dec213c7e',
+ 'stream.rs:encode_stream_type:0': '17d6db253f0c8ce7',
+ 'stream.rs:encode_value:0': 'a19d9e2c0378c521',
+ 'stream.rs:from:0': 'c7be9724e90a2882',
+ 'stream.rs:from:1': '42c83b96fd8103ba',
+ 'stream.rs:from:2': '42c83b96fd8103ba',
+ 'stream.rs:from:3': 'c993e3b5e48135c7',
+ 'stream.rs:from:4': '2fddae2dca89a113',
+ 'stream.rs:write:0': '14aa06b35d2b6c4a'}
+
+
+def body_digest(repo, rel, name, nth):
+    import hashlib
+    src = Source(repo + '/h3/src/' + rel)
+    body, _ = src.fn_body(name, nth=nth)
+    return hashlib.sha256(re.sub(r'\s+', '', body).encode()).hexdigest()[:16]
+
+
+def check_bodies(repo):
+    for rel, name, nth in BODY_ANCHORS:
+        got = body_digest(repo, rel, name, nth)
+        want = BODY_SHA.get('%s:%s:%d' % (rel, name, nth))
+        if got != want:
+            raise AnchorLost('body of %s fn %s (#%d) differs from the one the model mirrors (%s, expected %s)' % (rel, name, nth, got, want))
+
+
+# `impl Buf for WriteBuf`: exactly these methods (a provided method that is overridden - chunks_vectored, copy_to_bytes,
+# ... - would change what a transport sees without touching the three) and, when no fact site is altered, this exact text
+BUF_IMPL_METHODS = ['remaining', 'chunk', 'advance']
+BUF_IMPL_TEXT = ('fnremaining(&self)->usize{self.len-self.pos+self.frame.as_ref().and_then(|f|f.payload()).map_or(0,|x'
+                 '|x.remaining())}fnchunk(&self)->&[u8]{ifself.len-self.pos>0{&self.buf[self.pos..self.len]}elseifletS'
+                 'ome(payload)=self.frame.as_ref().and_then(|f|f.payload()){payload.chunk()}else{&[]}}fnadvance(&mutse'
+                 'lf,mutcnt:usize){letremaining_header=self.len-self.pos;ifremaining_header>0{letadvanced=usize::min(c'
+                 'nt,remaining_header);self.pos+=advanced;cnt-=advanced;}ifletSome(payload)=self.frame.as_mut().and_th'
+                 'en(|f|f.payload_mut()){payload.advance(cnt);}}')
+
+
+GENERIC_FN_NAMES = {'new', 'from', 'default', 'build', 'drop', 'clone', 'fmt', 'poll', 'into', 'encode', 'decode'}
+
+
+def writer_call_census(repo):
+    """Call graph above the write sites.  W starts with the SendStream primitives (send_data, poll_send, poll_finish) and
+    stream::write; every call of a name in W - method call, path call (UFCS, `Trait::f(&mut s, ..)`) or bare call after a
+    `use` - is a site (file, enclosing fn, callee, how many times), and its enclosing fn joins W (generic names such as
+    `new` are recorded as callers but not followed).  A new caller of any function that can reach a write is a new row."""
+    import os
+    import hashlib
+    root = os.path.join(repo, 'h3', 'src')
+    texts, ranges = {}, {}
+    for d, dirs, files in sorted(os.walk(root)):
+        dirs.sort()
+        if os.path.basename(d) == 'tests':
+            dirs[:] = []
+            continue
+        for fn in sorted(files):
+            if fn.endswith('.rs') and fn != 'tests.rs':
+                path = os.path.join(d, fn)
+                t = strip_test_modules(Source(path).text)
+                texts[path] = t
+                ranges[path] = fn_ranges(t)
+    W = {'send_data', 'poll_send', 'poll_finish', 'write'}
+    sites = {}
+    changed = True
+    rounds = 0
+    while changed:
+        changed = False
+        rounds += 1
+        if rounds > 50:
+            raise AnchorLost('writer call census does not converge')
+        sites = {}
+        for path, t in texts.items():
+            rel = os.path.relpath(path, root)
+            imports_write = bool(re.search(r'use\s+[\w:]*stream::(?:\{[^;]*\bwrite\b|write\b)', t))
+            for name in sorted(W):
+                for m in re.finditer(r'(?<![\w!])' + name + r'\s*(?:::<[^>]*>)?\s*\(', t):
+                    pre = t[max(0, m.start() - 12):m.start()]
+                    if re.search(r'\bfn\s+$', pre):
+                        continue
+                    if name == 'write' and not (pre.rstrip().endswith('stream::') or rel == 'stream.rs' or imports_write):
+                        continue    # io::Write::write and friends
+                    encl = [(j - i, nm) for i, j, nm in ranges[path] if i <= m.start() <= j]
+                    fnn = min(encl)[1] if encl else '-'
+                    sites[(rel, fnn, name)] = sites.get((rel, fnn, name), 0) + 1
+                    if fnn not in W and fnn not in GENERIC_FN_NAMES and fnn != '-':
+                        W.add(fnn)
+                        changed = True
+    out = []
+    for (rel, fnn, name), cnt in sorted(sites.items()):
+        txt = '%s|%s|%s|x%d' % (rel, fnn, name, cnt)
+        out.append((txt, int(hashlib.sha256(txt.encode()).hexdigest()[:12], 16)))
+    if len(out) < 10:
+        raise AnchorLost('writer call census found too little')
+    return out
+
+
 def extract(repo):
     f, spans = {}, {}
     fr = Source(repo + '/h3/src/proto/frame.rs')
@@ -463,6 +604,13 @@ def extract(repo):
     f['advance_pos_off'] = signed(m.group(2), m.group(3))
     f['advance_cnt_off'] = signed(m.group(4), m.group(5))
     f['advance_payload_off'] = signed(m.group(6), m.group(7))
+    methods = re.findall(r'\bfn\s+(\w+)', blk)
+    if methods != BUF_IMPL_METHODS:
+        raise AnchorLost('impl Buf for WriteBuf defines %s, expected exactly %s' % (methods, BUF_IMPL_METHODS))
+    untouched = (f['chunk_lo_off'] == 0 and f['chunk_hi_off'] == 0 and f['advance_uses_min'] and f['advance_pos_off'] == 0
+                 and f['advance_cnt_off'] == 0 and f['advance_payload_off'] == 0)
+    if untouched and flat != BUF_IMPL_TEXT:
+        raise AnchorLost('impl Buf for WriteBuf differs from the block the model mirrors')
 
     # connection.rs
     body, spans['send_control_stream_headers'] = cn.fn_body('send_control_stream_headers')
@@ -523,7 +671,9 @@ def extract(repo):
     body, spans['send_trailers'] = cn.fn_body('send_trailers')
     if not re.search(r'stream::write\(&mut\s+self\.stream,\s*Frame::Headers\(block\.freeze\(\)\)\)', body):
         raise AnchorLost('RequestStream::send_trailers')
+    check_bodies(repo)
     f['write_sites'] = write_site_census(repo)
+    f['writer_calls'] = writer_call_census(repo)
     # config.rs: TryFrom<Config> for frame::Settings
     cf = Source(repo + '/h3/src/config.rs')
     f['setting_ids'], spans['setting_identifiers'] = macro_table(fr, 'setting_identifiers')
@@ -633,5 +783,9 @@ def render(f):
     L.append('   file | enclosing fn | callee | head of the first argument, each as the first 48 bits of its SHA-256 *)')
     L.append('Definition write_sites : list N := [')
     L.append(';\n'.join('  %d (* %s *)' % (h, t.replace('*)', '* )')) for t, h in f['write_sites']))
+    L.append('].')
+    L.append('(* CALL GRAPH above those sites: file | enclosing fn | callee that can reach a write | number of calls *)')
+    L.append('Definition writer_calls : list N := [')
+    L.append(';\n'.join('  %d (* %s *)' % (h, t) for t, h in f['writer_calls']))
     L.append('].')
     return '\n'.join(L) + '\n'
